@@ -52,6 +52,9 @@ Definition err_hello_late : bytes := bs "smtp: Hello called after other methods"
 Definition err_requiretls : bytes := bs "smtp: server does not support REQUIRETLS".
 Definition err_smtputf8 : bytes := bs "smtp: server does not support SMTPUTF8".
 Definition err_ret : bytes := bs "smtp: Unknown RET parameter value".
+Definition err_8bitmime : bytes := bs "smtp: server does not support 8BITMIME".
+Definition err_binarymime : bytes := bs "smtp: server does not support BINARYMIME".
+Definition err_body : bytes := bs "smtp: Unknown BODY parameter value".
 Definition err_envid : bytes := bs "smtp: Malformed ENVID parameter value".
 Definition err_notify : bytes := bs "smtp: Malformed NOTIFY parameter value".
 Definition err_illegal_addr : bytes := bs "smtp: Illegal address".
@@ -361,11 +364,31 @@ Definition auth_value (a : bytes) : bytes :=
   | _ :: _ => encode_xtext a
   end.
 
+(* the BODY parameter: MailOptions.Body when it is set (7BIT / 8BITMIME need
+   the 8BITMIME extension, BINARYMIME needs BINARYMIME; anything else is refused
+   locally), otherwise BODY=8BITMIME whenever the server offers 8BITMIME *)
+Definition mail_body_param (ext : option extmap) (opts : option mail_opts) : list bytes + bytes :=
+  let dflt := if has_ext ext (key "8BITMIME") then [bs "BODY=8BITMIME"] else [] in
+  match opts with
+  | None => inl dflt
+  | Some o =>
+      match mo_body o with
+      | [] => inl dflt
+      | _ :: _ =>
+          if bytes_eqb (mo_body o) (bs "7BIT") || bytes_eqb (mo_body o) (bs "8BITMIME") then
+            if has_ext ext (key "8BITMIME") then inl [bs "BODY=" ++ mo_body o] else inr err_8bitmime
+          else if bytes_eqb (mo_body o) (bs "BINARYMIME") then
+            if has_ext ext (key "BINARYMIME") then inl [bs "BODY=" ++ mo_body o] else inr err_binarymime
+          else inr err_body
+      end
+  end.
+
 (* the parameters of the MAIL line in the order Mail appends them (each is
-   preceded by one SP on the line), or the local error that aborts the call.
-   MailOptions.Body is never looked at (known finding F14). *)
+   preceded by one SP on the line), or the local error that aborts the call *)
 Definition mail_params (ext : option extmap) (opts : option mail_opts) : list bytes + bytes :=
-  let p1 := if has_ext ext (key "8BITMIME") then [bs "BODY=8BITMIME"] else [] in
+  match mail_body_param ext opts with
+  | inr e => inr e
+  | inl p1 =>
   match opts with
   | None => inl p1
   | Some o =>
@@ -387,6 +410,7 @@ Definition mail_params (ext : option extmap) (opts : option mail_opts) : list by
                    | None => p5
                    end)
           end
+  end
   end.
 
 (* " p1 p2 ..." *)
@@ -818,6 +842,21 @@ Example ex_inject_refused :
   let c0 := new_client false ex_stream None in
   c_mail c0 (bs "a@b>" ++ crlf ++ bs "RSET") None = (RLocal err_line, c0).
 Proof. vm_compute. reflexivity. Qed.
+
+(* MailOptions.Body is sent as given when its extension is offered *)
+Example ex_body :
+  let ext := Some (parse_ext (bs "srv" ++ [LF] ++ bs "8BITMIME")) in
+  let body b := mkMO b 0 false false [] [] None in
+  mail_params ext (Some (body (bs "7BIT"))) = inl [bs "BODY=7BIT"]
+  /\ mail_params ext (Some (body (bs "8BITMIME"))) = inl [bs "BODY=8BITMIME"]
+  /\ mail_params ext (Some (body (bs ""))) = inl [bs "BODY=8BITMIME"]
+  /\ mail_params ext (Some (body (bs "BINARYMIME"))) = inr err_binarymime
+  /\ mail_params ext (Some (body (bs "binarymime"))) = inr err_body
+  /\ mail_params (Some (parse_ext (bs "srv" ++ [LF] ++ bs "BINARYMIME"))) (Some (body (bs "BINARYMIME")))
+     = inl [bs "BODY=BINARYMIME"]
+  /\ mail_params (Some (parse_ext (bs "srv" ++ [LF] ++ bs "BINARYMIME"))) (Some (body (bs "7BIT")))
+     = inr err_8bitmime.
+Proof. vm_compute. repeat split. Qed.
 
 Example ex_rfc3339 :
   format_rfc3339 (mkRT 1700000000 0 0) = bs "2023-11-14T22:13:20Z"
